@@ -35,14 +35,14 @@ def all_objects(p, s):
     return [x for x in o.split(',') if x]
 
 
-def view(p, s, big=False):
+def view(p, s, big=False, types=None):
     """label -> attribute tuple of every object the session can see (None when the session cannot search)"""
     names = all_objects(p, s)
     if names is None:
         return None
     v = {}
     for n in names:
-        r = p.op('getattr %s %s %s' % (s, n, ' '.join('0x%x:%d' % (t, 400000 if t == 0x11 else 2048) for t in ATTR_TYPES)))
+        r = p.op('getattr %s %s %s' % (s, n, ' '.join('0x%x:%d' % (t, 400000 if t == 0x11 else 2048) for t in (types or ATTR_TYPES))))
         attrs = tuple((t, l, ('' if l == '-1' else x)) for (t, l, x) in r.get('attrs', []))
         lab = next((x for (t, l, x) in attrs if t == 3), '')
         key = lab
